@@ -668,6 +668,14 @@ func (sp *spec) skipVerdict(fn *ssa.Function) (must bool, conditional bool, ok b
 	return !marker, marker && loopsBack, true
 }
 
+// knownValueDependentSkips: (xDS type / proxy variant or * / kind) for which the needsPush function decides from the
+// content of the change; each was read and the argument recorded. A new content-dependent skip is reported.
+var knownValueDependentSkips = map[string]string{
+	"LDS/*/PeerAuthentication": "skipped only when the policy's namespace is neither the proxy's config namespace nor the root namespace; PeerAuthentication is matched against exactly those (PolicyMatcherForProxy uses ConfigNamespace; root namespace = mesh-wide), also for waypoints (matched by the waypoint's own namespace)",
+	"CDS/Waypoint/RequestAuthentication":                    "decided by the JWKS fetch-mode feature flag, not by content: only when Envoy fetches JWKS is there a JWKS cluster to rebuild (fix af6b501)",
+	"CDS/Waypoint(east-west gateway)/RequestAuthentication": "same feature-flag condition as for waypoints",
+}
+
 type stateRow struct{ pkg, typ, field string }
 
 // kindState: config kind -> snapshot/proxy fields that hold state derived from objects of that kind.
@@ -752,6 +760,14 @@ func c01r4(c *Ctx) {
 				if !must {
 					if cond {
 						nCond++
+						condKey := e.typ + "/" + v.name + "/" + k
+						why, known := knownValueDependentSkips[condKey]
+						if !known {
+							why, known = knownValueDependentSkips[e.typ+"/*/"+k]
+						}
+						c.Check("content-dependent skip is a confirmed one: "+condKey, e.needsPush.Pos(), known,
+							"for this proxy variant "+e.needsPush.Name()+" can both push and skip for a change of kind "+k+" alone, depending on the changed object or the proxy: the check cannot decide that the resources left unsent are unchanged, and this (type, proxy, kind) is not among the content-dependent skips that were confirmed by reading (a new one needs its argument recorded in knownValueDependentSkips)")
+						_ = why
 					}
 					continue
 				}
@@ -851,6 +867,142 @@ func c01r5(c *Ctx) {
 		}
 	}
 	c.Floor(8)
+	c01r5b(c)
+}
+
+// derived per-proxy state: when computeProxyState refreshes an input (frozen pairs, each confirmed through the effect
+// sets: the dependent setter reads a Proxy field the input setter writes), the dependent is recomputed on every path,
+// i.e. the flag that guards the dependent setter is true on every path from the input setter's call to the guard.
+func c01r5b(c *Ctx) {
+	p := c.P
+	cps := p.Func(pkgXds, "DiscoveryServer", "computeProxyState")
+	proxyT := p.Struct(pkgModel, "Proxy")
+	isProxyField := map[*types.Var]bool{}
+	for _, f := range fieldsOf(proxyT) {
+		isProxyField[f] = true
+	}
+	pairs := []struct{ input, dependent, why string }{
+		{"SetServiceTargets", "SetGatewaysForProxy", "the merged gateway resolves server ports to target ports through the proxy's service targets"},
+	}
+	for _, pr := range pairs {
+		in := p.Func(pkgModel, "Proxy", pr.input)
+		dep := p.Func(pkgModel, "Proxy", pr.dependent)
+		w := effectsOf(p.CG().Reach([]*ssa.Function{in}, nil))
+		r := effectsOf(p.CG().Reach([]*ssa.Function{dep}, nil))
+		var shared []string
+		for f := range w.Writes {
+			if _, ok := r.Reads[f]; ok && isProxyField[f] {
+				shared = append(shared, f.Name())
+			}
+		}
+		sort.Strings(shared)
+		c.Check("proxy-state dependency confirmed: "+pr.dependent+" reads what "+pr.input+" writes", dep.Pos(), len(shared) > 0, "the frozen dependency pair is no longer visible in the effect sets ("+pr.why+")")
+		inCalls := callsIn(cps, p.FuncObj(pkgModel, "Proxy", pr.input))
+		depCalls := callsIn(cps, p.FuncObj(pkgModel, "Proxy", pr.dependent))
+		if len(inCalls) == 0 || len(depCalls) != 1 {
+			c.Check("computeProxyState calls "+pr.input+" and "+pr.dependent, cps.Pos(), false, "call sites not found")
+			continue
+		}
+		// the boolean flag guarding the dependent call: an If on a phi of constants that dominates it
+		var guard *ssa.If
+		for _, i := range allIfs(cps) {
+			if ph, ok := i.Cond.(*ssa.Phi); ok && i.Block().Dominates(depCalls[0].Block()) && underEdges(cps, depCalls[0].Block(), []Edge{{i.Block(), 0}}) {
+				_ = ph
+				guard = i
+			}
+		}
+		if guard == nil {
+			c.Check(pr.dependent+" is guarded by a reset flag", depCalls[0].Pos(), false, "cannot identify the flag that guards "+pr.dependent)
+			continue
+		}
+		for _, ic := range inCalls {
+			ok := flagTrueOnAllPaths(cps, ic.Block(), guard)
+			c.Check("refreshing "+pr.input+" forces "+pr.dependent, ic.Pos(), ok,
+				"computeProxyState can refresh the proxy's "+strings.Join(shared, "/")+" ("+pr.input+") and reach the guard of "+pr.dependent+" with its reset flag false: "+pr.why+", so the proxy keeps state derived from the old value and the resources generated from it differ from a fresh control plane's")
+		}
+	}
+}
+
+// flagTrueOnAllPaths: on every CFG path from block `from` to the block of guard, the guard's condition (a phi over
+// boolean constants and other such phis) evaluates to true. Path-sensitive over phi edges; unknown counts as not true.
+func flagTrueOnAllPaths(fn *ssa.Function, from *ssa.BasicBlock, guard *ssa.If) bool {
+	type st struct {
+		b   *ssa.BasicBlock
+		env string
+	}
+	seen := map[st]bool{}
+	okAll := true
+	var walk func(b *ssa.BasicBlock, env map[*ssa.Phi]int) // 1 true, 0 false, -1 unknown
+	key := func(env map[*ssa.Phi]int) string {
+		var ks []string
+		for ph, v := range env {
+			ks = append(ks, fmt.Sprintf("%s=%d", ph.Name(), v))
+		}
+		sort.Strings(ks)
+		return strings.Join(ks, ",")
+	}
+	resolve := func(v ssa.Value, env map[*ssa.Phi]int) int {
+		if b, ok := constBool(v); ok {
+			if b {
+				return 1
+			}
+			return 0
+		}
+		if ph, ok := v.(*ssa.Phi); ok {
+			if r, ok := env[ph]; ok {
+				return r
+			}
+		}
+		return -1
+	}
+	walk = func(b *ssa.BasicBlock, env map[*ssa.Phi]int) {
+		if !okAll {
+			return
+		}
+		k := st{b, key(env)}
+		if seen[k] {
+			return
+		}
+		seen[k] = true
+		if b == guard.Block() {
+			if resolve(guard.Cond, env) != 1 {
+				okAll = false
+			}
+			return
+		}
+		for _, s := range b.Succs {
+			ne := map[*ssa.Phi]int{}
+			for ph, v := range env {
+				ne[ph] = v
+			}
+			pi := -1
+			for i, pp := range s.Preds {
+				if pp == b {
+					pi = i
+				}
+			}
+			// phis are evaluated in parallel on the old environment
+			upd := map[*ssa.Phi]int{}
+			for _, ins := range s.Instrs {
+				ph, ok := ins.(*ssa.Phi)
+				if !ok {
+					break
+				}
+				if _, isBool := ph.Type().Underlying().(*types.Basic); !isBool {
+					continue
+				}
+				if pi >= 0 {
+					upd[ph] = resolve(ph.Edges[pi], env)
+				}
+			}
+			for ph, v := range upd {
+				ne[ph] = v
+			}
+			walk(s, ne)
+		}
+	}
+	walk(from, map[*ssa.Phi]int{})
+	return okAll
 }
 
 func funcPkgPath(f *ssa.Function) string {
